@@ -229,11 +229,24 @@ def replay_approx(ck: Check, funs, I, jac, pts, k, par="serial"):
 def run(ck: Check):
     import random
 
+    import time
+
     rng = random.Random(ck.seed)
     rich = ck.thorough
+    t0 = time.time()
+    phases = ck.extra.setdefault("phase_wall_s", {})
+
+    def lap(name):
+        nonlocal t0
+        phases[name] = round(time.time() - t0, 1)
+        t0 = time.time()
     # ---- 1. exhaustive check of the specification's own properties (both levels)
-    for level in ("approx", "disc"):
-        ck.tlc("DerivApprox", cfg(level, rich, False), workers=8, timeout=1500, require_actions=("Compute",))
+    # (per-expression coverage of the recursive polynomial operators is expensive: it is collected on the
+    # small discipline-level run; on the approximator level non-vacuity is established below by
+    # distinct states == 2 x instances, i.e. Compute was taken, and the invariants evaluated, on every one)
+    rx = ck.tlc("DerivApprox", cfg("approx", rich, False), workers=8, timeout=1500, coverage=False)
+    ck.tlc("DerivApprox", cfg("disc", rich, False), workers=8, timeout=1500, require_actions=("Compute",))
+    lap("tlc_exhaustive")
     # ---- 2. approximator level: instances + expected results from TLC, replayed on gemseo
     r = ck.tlc("DerivApprox", cfg("approx", rich, True), workers=1, timeout=1500, count=False, coverage=False)
     funs, cases = None, []
@@ -242,8 +255,10 @@ def run(ck: Check):
             funs = {i + 1: fn for i, fn in enumerate(v[1])}
         elif v[0] == "CASE":
             cases.append(v[1:])
-    if funs is None or len(cases) * 2 != r.distinct:
-        raise MachineryError(f"printing run: {len(cases)} CASE records for {r.distinct} states")
+    if funs is None or len(cases) * 2 != r.distinct or rx.distinct != r.distinct or rx.depth != 2:
+        raise MachineryError(f"printing run: {len(cases)} CASE records for {r.distinct} states "
+                             f"(exhaustive run: {rx.distinct} states, depth {rx.depth})")
+    lap("tlc_print_and_parse_approx")
     n_quiet = 0
     eligible = []
     for k, (I, jac, pts) in enumerate(cases):
@@ -254,20 +269,22 @@ def run(ck: Check):
             eligible.append(k)
             if k % 997 == 0:
                 ck.sample({"instance": I, "expected_jac_scaled_by_2^14": jac, "eval_points_scaled_by_2^7": pts})
-    # parallel back-ends on a seeded subset of the instances the serial run handled
-    n_proc = 120 if rich else 24
-    n_thr = 120 if rich else 24
-    multi = [k for k in eligible if len(cases[k][0]["idx"]) >= 2]
-    for k in sorted(rng.sample(multi, min(n_proc, len(multi)))):
-        replay_approx(ck, funs, *cases[k], k, par="procs")
-        ck.traces += 1
-    for k in sorted(rng.sample(multi, min(n_thr, len(multi)))):
-        replay_approx(ck, funs, *cases[k], k, par="threads")
-        ck.traces += 1
+    lap("replay_approx_serial")
+    # parallel back-ends on a seeded subset (per method) of the instances the serial run handled
+    n_par = 40 if rich else 8
+    runs = {"procs": 0, "threads": 0}
+    for meth in ("fd", "cd", "cs"):
+        multi = [k for k in eligible if cases[k][0]["meth"] == meth and len(cases[k][0]["idx"]) >= 2]
+        for par in ("procs", "threads"):
+            for k in sorted(rng.sample(multi, min(n_par, len(multi)))):
+                replay_approx(ck, funs, *cases[k], k, par=par)
+                ck.traces += 1
+                runs[par] += 1
     ck.extra["approx_instances"] = len(cases)
     ck.extra["approx_instances_quiet_serial"] = n_quiet
-    ck.extra["process_backend_runs"] = min(n_proc, len(multi))
-    ck.extra["thread_backend_runs"] = min(n_thr, len(multi))
+    ck.extra["process_backend_runs"] = runs["procs"]
+    ck.extra["thread_backend_runs"] = runs["threads"]
+    lap("replay_approx_parallel")
     # ---- 3. discipline level
     from . import c16_disc
 
@@ -275,7 +292,9 @@ def run(ck: Check):
     dcases = [v[1:] for v in printed_records(r.out) if v[0] == "DISC"]
     if len(dcases) * 2 != r.distinct:
         raise MachineryError(f"printing run: {len(dcases)} DISC records for {r.distinct} states")
+    lap("tlc_print_and_parse_disc")
     c16_disc.run(ck, funs, dcases, rng)
+    lap("replay_disc")
     ck.exhaustive = True  # every instance of the bounded enumeration is replayed serially
     ck.assumptions += [
         "exact-arithmetic slice: polynomials of degree <= 3 with integer coefficients, dyadic points/steps "
